@@ -69,15 +69,24 @@ pub fn run_history(case: &Value) -> Value {
         .cloned()
         .unwrap_or_default();
     let mut pred_status = vec![];
+    let mut rests = vec![];
     let mut preds: Vec<Option<Predictor>> = vec![];
     for p in &pred_specs {
-        match predictor_from_json(p) {
-            Ok(pr) => {
+        match predictor_from_json_rest(p) {
+            Ok((pr, rest)) => {
                 pred_status.push(json!("ok"));
+                rests.push(rest);
                 preds.push(Some(pr));
             }
             Err(e) => {
-                pred_status.push(json!(if e == "panic" { "panic" } else { "err" }));
+                pred_status.push(json!(if e == "panic" {
+                    "panic"
+                } else if e.starts_with("rest:") {
+                    "rest-mismatch"
+                } else {
+                    "err"
+                }));
+                rests.push(Value::Null);
                 preds.push(None);
             }
         }
@@ -138,6 +147,7 @@ pub fn run_history(case: &Value) -> Value {
                     None => json!("nopred"),
                 }
             }
+            #[cfg(feature = "tag-prediction")]
             "fill_tags" => match catch_unwind(AssertUnwindSafe(|| s.fill_tags())) {
                 Ok(()) => json!("ok"),
                 Err(_) => json!("panic"),
@@ -187,5 +197,5 @@ pub fn run_history(case: &Value) -> Value {
         };
         steps.push(json!({"res": res, "proj": proj(&s, &o)}));
     }
-    json!({"id": case["id"], "preds": pred_status, "steps": steps})
+    json!({"id": case["id"], "preds": pred_status, "rests": rests, "steps": steps})
 }
